@@ -1,5 +1,5 @@
 (* Chan/Bounded.v — the parts of C19 that are NOT proved for all sizes: the variadic select
-   form of deriveJoin and the composition derivePipeline = Join . Fmap.  For these only a
+   form of deriveJoin.  For it only a
    bounded statement is established (exhaustive exploration of ALL interleavings of the
    expected IR for the listed small configurations, by vm_compute in the kernel); the
    theorems are therefore named ..._partial.  What is missing is said at each. *)
@@ -22,44 +22,3 @@ Lemma joinvar3_bounded :
   no_violation (search_all KJoinVar (exp_join_var 3) joinvar_configs3 2000 0%N 0%N) = true.
 Proof. vm_compute. reflexivity. Qed.
 
-(* ---------- pipeline: the goroutine of deriveFmap(g, b) feeds deriveJoin ---------- *)
-(* templates: 0 join main, 1 forwarder, 2 the fmap goroutine.
-   channels: 0 = fmap's out = join's in (capacity cap(b)), 1 = out, 2+j = the channel returned
-   by g(x_j), 2+n = b (returned by f(a)).  g is modelled by the identity on channel ids: the
-   items on b are the ids of the channels g returns; their producers exist from the start.
-   threads: [fmap goroutine; join main; consumer] ++ producers of the g(x_j) ++ [producer of b] *)
-Definition pipe_progs : list prog := fn_progs exp_join_cc ++ [fmap_main].
-
-Definition pipe_init (cfg:config) : state :=
-  let ins := c_inputs cfg in
-  let n := length ins in
-  let ids := seq 2 n in
-  let bch := 2 + n in
-  {| thr := [ TProg 2 0 [VC (Some bch); VC (Some 0); VI 0; VB false; VI 0];
-              TProg 0 0 [VC (Some 0); VC (Some 1); VI 0; VI 0; VI 0];
-              TCons 1 [] false ]
-            ++ map (fun '(i, ci) => TProd i (snd ci) false) (combine ids ins)
-            ++ [ TProd bch ids false ];
-     chs := [ {| cap := c_outer cfg; buf := []; closed := false |};
-              {| cap := 0; buf := []; closed := false |} ]
-            ++ map (fun ci:nat * list item => {| cap := fst ci; buf := []; closed := false |}) ins
-            ++ [ {| cap := c_outer cfg; buf := []; closed := false |} ];
-     wg := 0; panicked := false |}.
-
-Definition pipe_good (cfg:config) (s:state) : bool :=
-  interleaved (cons_log s 2) (map snd (c_inputs cfg)) && cons_done s 2.
-
-Definition pipe_search_one (cfg:config) : sstate :=
-  dfs (fun x => x) pipe_progs (pipe_good cfg) 2000 (pipe_init cfg) [] PositiveSet.empty
-      {| black := PositiveSet.empty; found := None; count := 0%N |}.
-
-(* 0..1 inner channels: 0..2 items x capacities 0..1 x cap(b) 0..1; 2 inner channels: 0..1 items each
-   (all capacities), and 2 items each with cap(b) = 0 *)
-Definition pipe_configs : list config :=
-  flat_map (fun n => configs_n n [0;1;2] [0;1] [0;1]) [0;1]
-  ++ configs_n 2 [0;1] [0;1] [0;1] ++ configs_n 2 [2] [0;1] [0].
-
-Lemma pipeline_bounded :
-  forallb (fun cfg => match found (pipe_search_one cfg) with None => true | Some _ => false end)
-          pipe_configs = true.
-Proof. vm_compute. reflexivity. Qed.
